@@ -26,6 +26,9 @@ SPECS = [
     {'conv': 'cf1d', 'ny': 3, 'nx': 4, 'nonuniform': True, 'origin': [-0.0023, 0.00071], 'step': [0.0011, 0.0007], 'bounds_shrink': 0.00013},
     # more than 100 cells, fewer than 100 polygons (two rows of holes): indexes with more digits than the number of records
     {'conv': 'cf2d', 'ny': 10, 'nx': 11, 'bounds': 'vars', 'skew': 0.0, 'holes': [[j, i] for j in (0, 1) for i in range(11)]},
+    # a 0..360 longitude grid across the antimeridian, and large (projected, metre-like) coordinates: written as they are
+    {'conv': 'cf1d', 'ny': 2, 'nx': 5, 'origin': [176.5, -20.0], 'step': [2.0, 1.0]},
+    {'conv': 'cf1d', 'ny': 2, 'nx': 3, 'origin': [402500.0, 6215000.0], 'step': [250.0, 250.0]},
 ]
 FORMATS = ['geojson', 'shapefile', 'wkt', 'wkb']
 
